@@ -1,6 +1,4 @@
 def extend(add, NA, SIMNOTE):
-    for prop in ('C04',):
-        NA[prop] = 'TEMPORARY: simulation check designed (DESIGN.md section 4) but not built yet; will be claimed once the check exists.'
     add('C14', 'fault_enumeration',
         'Seeded histories of write_env / crash at byte k / short writes with EIO or ENOSPC / failing opens / direct damage / restart / read_env judged against a reference model of the per-task files, '
         'plus an enumeration of EVERY proper prefix (every crash point of the sequential writer) of each sampled environment file, read back through Env.from_file and read_env. '
@@ -19,3 +17,9 @@ def extend(add, NA, SIMNOTE):
         'statuses, commands actually started, return codes, captured files and per-task directories are compared with a reference model under many interleavings of 1-4 workers.',
         SIMNOTE + ' The process stub writes with os.write on the descriptors it is given, like a child process.',
         'deterministic simulation: scripted process table behind the subprocess seam + thread simulator + reference model', 'DESIGN.md 4 C19', 'vsim-threads')
+    add('C04', 'exploration',
+        'Seeded histories of 2-5 runs of one job over one scratch output tree: every run is a simulated process (fresh tasks, graphs, Env; only the per-task environment files survive) scheduled by the real queue backend under a seeded policy, '
+        'through RunCommand.execute on a job file or read_env/schedule/write_env; between runs persisted environments are lost, tasks flip between success and failure, tasks are added, worker counts change, and a run may crash while writing the environments. '
+        'After every run: no DONE task is older than a DONE dependency (ground truth from execution ids and recorded clocks) or sits on a FAILED/SKIPPED hard dependency; up-to-date DONE tasks are neither executed nor modified.',
+        SIMNOTE + ' The clock is strictly increasing across the runs of a history (no backward jumps).',
+        'deterministic simulation of run histories: thread simulator + restarts with durable state only + continuing simulated clock', 'DESIGN.md 4 C04', 'vsim-threads')
